@@ -29,6 +29,10 @@
 //         wrong values in Generate for signer n-1 (thorough: every position; quick: every 4th broadcast plus 9, every 6th
 //           private message), followed by Sign, Refresh, Sign
 //         thorough n = 5: reduced signer set with a faulty member (all coins / silent)
+//   cross-phase cells (inside nts and dss): ONE faulty party b (every index) deviates in Generate AND in Sign: Generate: wrong
+//         private share to exactly one honest victim (every victim), the complaint answered correctly resp. with the bare end
+//         marker; Sign: NTS {none, coins 100, 111, 010, silent from the start, silent from / wrong value in its last own
+//         broadcast}, DSS {none, silent, all coins}.  NTS (4,1),(5,1) [thorough (7,2)]; DSS (4,1) [thorough (5,1),(7,2)]
 //   msg   messages 0, 1, q-1, q, q+1, seeded: NTS signs all six in one world; DSS signs each once before and once after
 //         Refresh; (3,0),(4,1) [thorough: (5,1),(7,2)], without faults and with signer n-1 built-in-faulty; groups g0, g1
 //   verify  verifier boundary catalogue around one honest signature per scheme and group:
@@ -327,6 +331,38 @@ static void family_nts(const Grp *G, bool thorough)
 				}
 			}
 		}
+			// cross-phase cells: ONE faulty party b (every index) deviates in Generate AND in Sign.  Generate: wrong private
+			// share to exactly one honest victim (every victim), complaint answered correctly (b stays qualified) resp. answered
+			// with the bare end marker.  Sign: the deviations that make the honest parties reconstruct b's key share z_b
+			// (b disqualified or silent in the nonce DKG: built-in coins 100, 111, silent from the start; wrong or missing
+			// partial signature: coins 010, silent from / wrong value in its last own broadcast) or none.
+			// (n,t): (4,1),(5,1); thorough also (7,2).
+			if ((base.n == 4 || base.n == 5 || (thorough && base.n == 7 && base.t == 2)) && base.t >= 1)
+				for (int b = 0; b < (int)base.n && !g_stop; b++)
+					for (int ua = 0; ua < 2; ua++)
+						for (int v = 0; v < (int)base.n; v++)
+						{
+							if (v == b) continue;
+							Cfg C = base;
+							C.F.push_back(b);
+							const unsigned nbb = W0.nb[b];
+							for (int p2 = 0; p2 < 7; p2++)
+							{
+								C.beh = Beh();
+								C.beh.kg_victim = v, C.beh.kg_unanswered = (ua == 1);
+								switch (p2)
+								{
+									case 0: C.beh.kind = HONEST; break;
+									case 1: C.beh.kind = BUILTIN, C.beh.K = 3, C.beh.top = 4; break;
+									case 2: C.beh.kind = BUILTIN, C.beh.K = 3, C.beh.top = 7; break;
+									case 3: C.beh.kind = BUILTIN, C.beh.K = 3, C.beh.top = 2; break;
+									case 4: C.beh.kind = SILENT, C.beh.pos = 0; break;
+									case 5: C.beh.kind = SILENT, C.beh.pos = (int)nbb - 1; break;
+									case 6: C.beh.kind = TAMPER_B, C.beh.pos = (int)nbb - 1; break;
+								}
+								consider(C);
+							}
+						}
 	}
 }
 
@@ -461,6 +497,28 @@ static void family_dss(const Grp *G, bool thorough)
 				consider(E);
 			}
 		}
+		// cross-phase cells (Generate, Sign): ONE faulty party b (every index): wrong private share of the key's Joint-RVSS to
+		// one honest victim (every victim), answered correctly resp. with the bare end marker, then in Sign: honest code,
+		// silent, or the built-in switch with all coins (leaves at the first step; its sub-protocol shares are wrong).
+		// (n,t): (4,1); thorough also (5,1) and, for one victim only, (7,2).
+		if (n == 4 || thorough)
+			for (int b = 0; b < (int)n && !g_stop; b++)
+				for (int ua = 0; ua < 2; ua++)
+					for (int v = 0; v < (int)n; v++)
+					{
+						if (v == b) continue;
+						if (light && v != (b == 0 ? 1 : 0)) continue;
+						Cfg C = base;
+						C.F.push_back(b);
+						for (int p2 = 0; p2 < 3; p2++)
+						{
+							C.beh = Beh();
+							C.beh.kg_victim = v, C.beh.kg_unanswered = (ua == 1);
+							if (p2 == 1) C.beh.kind = SILENT;
+							if (p2 == 2) C.beh.kind = BUILTIN, C.beh.K = 50, C.beh.top = (1ULL << 50) - 1, C.beh.sub = 1;
+							consider(C);
+						}
+					}
 	}
 }
 
